@@ -7,6 +7,7 @@ pub mod c05;
 pub mod c07;
 pub mod c08;
 pub mod c10;
+pub mod c11;
 pub mod c13;
 pub mod c14;
 pub mod c17;
@@ -27,6 +28,7 @@ pub fn all() -> Vec<Property> {
         Property { id: "C07", run: c07::run, replay: c07::replay },
         Property { id: "C08", run: c08::run, replay: c08::replay },
         Property { id: "C10", run: c10::run, replay: c10::replay },
+        Property { id: "C11", run: c11::run, replay: c11::replay },
         Property { id: "C13", run: c13::run, replay: c13::replay },
         Property { id: "C14", run: c14::run, replay: c14::replay },
         Property { id: "C17", run: c17::run, replay: c17::replay },
